@@ -95,6 +95,17 @@ theorem ratio_bounds_U (T : STable ℝ) (top : List (TEdge β))
   obtain ⟨h1, h2, h3⟩ := U_premises T top hL xs r h hpos
   exact ratio_bounds U r.uTrPre V Vtr N cmin Csum halfD dod hUt hVt (by simp only [N]; exact_mod_cast h3) hcmin hC hhalf hdod h1 h2 hV1 hV2
 
+/-- `U_premises` for a table with the loop numbers of `preEntry G D` (what `generate_from_tropical` stores): no hypothesis on the graph left -/
+theorem U_premises_model (T : STable ℝ) (G : TGraph ℝ) (D : Nat) (hn : T.numEdges = G.topology.length)
+    (hl : ∀ m, m < 2 ^ T.numEdges → T.loops m = (preEntry G D m).2.1)
+    (xs : List ℝ) (r : PermResult ℝ) (h : permutahedral T xs = some r)
+    (hpos : ∀ s ∈ permTrace T xs T.numEdges (Mask.full T.numEdges) 0, ∀ xi, s.xi = some xi → 0 < xi ∧ xi ≤ 1 ∧ 0 < T.omega s.rest) :
+    let x : ℕ → ℝ := fun e => r.xPre.getD e 0
+    let U : ℝ := ∑ C ∈ cotrees G.topology (Finset.range T.numEdges), ∏ e ∈ C, x e
+    r.uTrPre ≤ U ∧ U ≤ (cotrees G.topology (Finset.range T.numEdges)).card * r.uTrPre ∧
+      1 ≤ (cotrees G.topology (Finset.range T.numEdges)).card :=
+  U_premises T G.topology (fun m hm => by rw [hl m hm, hn, preEntry_loops]) xs r h hpos
+
 /-- **`V ≤ C_sum · V_tr`** from the monomial bounds: if `F = Σ_i c_i m_i` with non-negative coefficients and every monomial
 `m_i ≤ U_tr · V_tr` (`C07.mass_terms_le`, `C07.momentum_terms_le`), and `U_tr ≤ U` (`U_premises`), then `F / U ≤ (Σ_i c_i) · V_tr` -/
 theorem V_upper {ι : Type} (s : Finset ι) (c m : ι → ℝ) (U Utr Vtr : ℝ) (hc : ∀ i ∈ s, 0 ≤ c i)
